@@ -713,7 +713,70 @@ def c17(sc, tier, seed):
     return v.finish(rule='TLC simulation of ScanHist yields histories of 260 operations (bursts of additions, bursts of removals, SCAN calls with COUNT in {1,2,3,10,1000} continuing the current iteration) over 120 elements; each is executed on a real set (SSCAN), hash (HSCAN) or keyspace (SCAN), with and without MATCH / TYPE; the recorded history (cursor in, cursor out, elements per call) is judged by TLC (Trace_Scan): for every completed full iteration Always <= Returned <= Ever restricted to the filter; plus termination on the stable collection. Non-trivial = completed full iterations judged.')
 
 
-CHECKS = {'C01': c01, 'C17': c17, 'C20': c20, 'C19': c19, 'C13': c13, 'C02': c02, 'C18': c18, 'C15': c15, 'C08': c08, 'C14': c14, 'C10': c10, 'C09': c09, 'C07': c07, 'C06': c06, 'C03': c03, 'C04': c04, 'C05': c05}
+def block_check(sc, tier, seed, prop, select, rule, quick_n, assumptions=()):
+    """Programs with blocking commands (MC_block) replayed step by step with the verif hooks as scheduler gates."""
+    import random as _r
+    v = Verdict(prop, tier, seed)
+    exe = build_harness(sc)
+    devs = open_devs()
+    out, st = run_tlc(sc, 'MC_block', mc_cfg('MC_block', devs), timeout=1500)
+    require_tlc_clean(st, 'MC_block')
+    v.add_tlc('MC_block', st)
+    cases = [c for c in join_cases(tlc_json_lines(out)) if select(c)]
+    if not cases:
+        raise Inconclusive('MC_block produced no program for ' + prop)
+    total = len(cases)
+    rnd = _r.Random(seed)
+    rnd.shuffle(cases)
+    if tier == 'quick':
+        # every (first blocking command, gate) combination first, then seeded
+        seen, must, rest = set(), [], []
+        for c in cases:
+            k = (cmd_text(c['steps'][0]['cmd']), cmd_text(c['steps'][1]['cmd']) if len(c['steps']) > 1 else '')
+            (must if k not in seen else rest).append(c)
+            seen.add(k)
+        cases = must + rest[:max(0, quick_n - len(must))]
+    for i, c in enumerate(cases):
+        c['id'] = i
+    cf, rf = sc.path('blk-cases.jsonl'), sc.path('blk-out.jsonl')
+    with open(cf, 'w') as f:
+        for c in cases:
+            f.write(json.dumps(c, separators=(',', ':')) + '\n')
+    port = int(os.environ.get('VERIF_PORT', 21000)) + 2600
+    p = subprocess.run([exe, 'block', '-cases', cf, '-out', rf, '-workers', str(NCPU), '-port', str(port)], stdout=subprocess.PIPE, stderr=subprocess.PIPE, text=True)
+    if p.returncode != 0:
+        raise Inconclusive('block engine failed: ' + p.stderr[-2000:])
+    results = [json.loads(l) for l in open(rf)]
+    if len(results) != len(cases):
+        raise Inconclusive('block engine returned %d results for %d cases' % (len(results), len(cases)))
+    v.absorb_replay(cases, results, engine='block')
+    v.add_samples(cases, 2)
+    v.cov['engines']['block']['programs_enumerated_by_tlc'] = total
+    v.assumptions = list(assumptions) + [
+        'a step is complete when the issuing connection has its reply or is confirmed blocked (announced by the verif hook at blk.captured, or held at an armed gate); replies to blocked connections are collected for 60-120 ms after every step',
+        'a client held at after_wake is woken but not served until released; while it is held the model serves nobody else from that push (single-element pushes wake one waiter)',
+        'timeouts: 1 s against a 1200 ms step of the model clock; a step of the model clock is replayed as that much wall-clock time from the moment the step starts; a case in which a timed block ends within 150 ms of its wall-clock timeout although the model clock has not reached it is re-run (up to 3 times), then counted as skipped_timing']
+    return v.finish(rule=rule)
+
+
+def _blk_kinds(c):
+    txt = ' '.join(cmd_text(s['cmd']) for s in c['steps'])
+    return {'unblock': 'UNBLOCK' in txt, 'kill': 'KILL' in txt, 'close': '@close' in txt, 'tick': any(s['c'] == 0 for s in c['steps']), 'timeout': 'BLPOP a 1' in txt}
+
+
+def c11(sc, tier, seed):
+    return block_check(sc, tier, seed, 'C11', lambda c: not any(_blk_kinds(c).values()),
+                       'TLC enumerates (MC_block) all programs of 4 steps over: connection 1 and 2 issuing any of the five blocking commands (one or two keys), pushes of 1-2 elements, competing consumers (LPOP, LMOVE, DEL, RENAME onto the key), with connection 1 optionally held at each schedule point of the block/wake loop (before register, after register, before capture, captured, after wake) and released later; NoStuckWaiter, OncePerStep are checked on the ideal reading; each program is replayed on the real server with the verif hooks as gates: replies, deferred replies of blocked clients, list contents and who is still blocked are compared after every step. (This check takes the programs without unblock / kill / close / timeouts; C12 takes the others.)',
+                       1200)
+
+
+def c12(sc, tier, seed):
+    return block_check(sc, tier, seed, 'C12', lambda c: any(_blk_kinds(c).values()),
+                       'the programs of MC_block that contain CLIENT UNBLOCK (TIMEOUT / ERROR, aimed at a blocked, a held or a not-blocked client), CLIENT KILL, the blocked client closing its socket, a timeout of 1 s with 1200 ms passing, combined with pushes and consumers and with the target held at each schedule point of the block/wake loop; BlockedIsClean is checked on the ideal reading; replayed as for C11 (reply of CLIENT UNBLOCK, whether the block ended and how, list contents after a push following a close, the connection\'s next command).',
+                       1200)
+
+
+CHECKS = {'C01': c01, 'C11': c11, 'C12': c12, 'C17': c17, 'C20': c20, 'C19': c19, 'C13': c13, 'C02': c02, 'C18': c18, 'C15': c15, 'C08': c08, 'C14': c14, 'C10': c10, 'C09': c09, 'C07': c07, 'C06': c06, 'C03': c03, 'C04': c04, 'C05': c05}
 
 
 def replay_path(path):
@@ -722,8 +785,22 @@ def replay_path(path):
     try:
         exe = build_harness(sc)
         case = rec['case']
+        engine = rec.get('engine', 'replay')
+        if engine not in ('replay', 'block'):
+            print(json.dumps(rec.get('result'), indent=1)[:4000])
+            log('this record comes from the %s engine; re-run the property check to reproduce it' % engine)
+            return 2
         case['id'] = 0
-        results, _ = run_replay(exe, sc, [case], workers=1)
+        if engine == 'block':
+            cf, rf = sc.path('one-case.jsonl'), sc.path('one-out.jsonl')
+            open(cf, 'w').write(json.dumps(case, separators=(',', ':')) + '\n')
+            port = int(os.environ.get('VERIF_PORT', 21000)) + 2600
+            pr = subprocess.run([exe, 'block', '-cases', cf, '-out', rf, '-workers', '1', '-port', str(port)], stdout=subprocess.PIPE, stderr=subprocess.PIPE, text=True)
+            if pr.returncode != 0:
+                raise Inconclusive('block engine failed: ' + pr.stderr[-2000:])
+            results = [json.loads(l) for l in open(rf)]
+        else:
+            results, _ = run_replay(exe, sc, [case], workers=1)
         r = results[0]
         print(json.dumps(r, indent=1))
         if r['status'] in ('viol', 'crash', 'noreply'):
